@@ -5,6 +5,7 @@ import (
 	"fmt"
 	"net"
 	"runtime"
+	"strings"
 	"sync"
 	"sync/atomic"
 	"time"
@@ -27,6 +28,7 @@ type realSess struct {
 	addr    string // accepted connections: the client's local address
 
 	onExit atomic.Int32
+	exitH  atomic.Int32 // id of the handler whose OnExit was called last
 	rcvd   atomic.Int32
 
 	mu           sync.Mutex
@@ -115,7 +117,8 @@ func (r *realSess) peerWrite(b byte) {
 }
 
 type handler struct {
-	w *world
+	w  *world
+	id int // 0: the manager's handler; h: the h-th handler given to Session.UpdateHandler
 }
 
 func (h *handler) find(s *stcp.Session) *realSess {
@@ -162,6 +165,7 @@ func (h *handler) Read(s *stcp.Session) error {
 func (h *handler) OnExit(s *stcp.Session) {
 	if r := h.find(s); r != nil {
 		r.onExit.Add(1)
+		r.exitH.Store(int32(h.id))
 	}
 	if h.w.slowExit {
 		// a callback that takes a moment (user code may): whatever else ends the session meanwhile finds the exit in
@@ -223,7 +227,14 @@ type world struct {
 
 	sendAmp  int  // concurrent-large-sends: every payload byte is handed to Session.Send sendAmp times
 	closeErr bool // every connection's Close reports an error after closing
-	slowExit bool // the exit callback takes 300 us
+	server   bool
+	amax     int // WithAccMaxRetry
+	plug     fdPlug
+	handlers map[int]*handler
+	fdUsed   bool      // Accept failures were provoked since phaseT0
+	phaseT0  time.Time // start of the current phase
+	aborted  string    // the scenario could not be set up as intended (fd table): drop it
+	slowExit bool      // the exit callback takes 300 us
 }
 
 // watchdog measures how late a 2 ms tick can be in this process while a scenario runs: the scheduling latency the
@@ -296,7 +307,9 @@ func (w *world) startServer(maxc int32) error {
 		addr := l.Addr().String()
 		_ = l.Close()
 		srv := stcp.NewTCPSrv(addr, &connMgr{w: w})
-		ch := srv.Start(stcp.WithMaxConn(maxc))
+		w.server = true
+		ch := srv.Start(stcp.WithMaxConn(maxc), stcp.WithAccDelay(accDelay), stcp.WithAccMaxDelay(accMaxDelay),
+			stcp.WithAccMaxRetry(w.amax), stcp.WithLogger(ulog.GetDefaultLogger()))
 		var startErr error
 		ok := waitFor(10*time.Second, func() bool {
 			select {
@@ -319,6 +332,7 @@ func (w *world) startServer(maxc int32) error {
 }
 
 func (w *world) stopServer() {
+	w.plug.restore()
 	if w.srv == nil {
 		return
 	}
@@ -328,6 +342,50 @@ func (w *world) stopServer() {
 }
 
 // connPair makes a connected pair (session side, peer side).
+// accDelay: the accept loop's back-off after a temporary error (WithAccDelay); every failed Accept except the last
+// is followed by a sleep of at least this long, which bounds the number of failures by the elapsed time
+const accDelay = 2 * time.Millisecond
+const accMaxDelay = 4 * time.Millisecond
+
+func (w *world) handler(id int) *handler {
+	if id == 0 {
+		return w.h
+	}
+	w.mu.Lock()
+	defer w.mu.Unlock()
+	if w.handlers == nil {
+		w.handlers = map[int]*handler{}
+	}
+	h := w.handlers[id]
+	if h == nil {
+		h = &handler{w: w, id: id}
+		w.handlers[id] = h
+	}
+	return h
+}
+
+// maxFails: how many Accept calls can have failed since the phase began (0 when no failure was provoked)
+func (w *world) maxFails() int {
+	if !w.fdUsed {
+		return 0
+	}
+	n := 2 + int(time.Since(w.phaseT0)/accDelay)
+	if n > 1000 {
+		n = 1000
+	}
+	return n
+}
+
+// acceptBackingOff: the accept goroutine sleeps in its error handler (a failed Accept has happened)
+func acceptBackingOff() bool {
+	for _, g := range allGoroutines() {
+		if strings.Contains(g.body, fnLoopAccept) && g.state == "sleep" {
+			return true
+		}
+	}
+	return false
+}
+
 func (w *world) connPair(tr int) (net.Conn, net.Conn, error) {
 	if tr == trPipe {
 		a, b := net.Pipe()
@@ -378,6 +436,9 @@ func (w *world) issue(l *label, natural bool) error {
 		w.byName[string(r.fc.name)] = r
 		w.mu.Unlock()
 		s := stcp.NewSession(w.mgr, r.fc.forSession())
+		if l.h != 0 {
+			s.UpdateHandler(w.handler(l.h)) // installed before Start
+		}
 		setRetired(fmt.Sprintf("%p", s), false)
 		r.sess.Store(s)
 		r.started.Store(true)
@@ -386,7 +447,33 @@ func (w *world) issue(l *label, natural bool) error {
 		}
 		s.Start()
 		return nil
+	case lFdExhaust:
+		w.fdUsed = true
+		if err := w.plug.exhaust(); err != nil {
+			w.aborted = "descriptor table: " + err.Error()
+		}
+		return nil
+	case lFdRestore:
+		if l.waitRetry && w.aborted == "" {
+			// positive: the loop is seen sleeping in its error handler, i.e. at least one Accept has failed
+			if !waitFor(5*time.Second, acceptBackingOff) {
+				w.aborted = "the accept loop was not seen backing off"
+			}
+		}
+		w.plug.restore()
+		return nil
+	case lSrvClose:
+		if w.srv != nil {
+			_ = w.srv.Close()
+		}
+		return nil
 	case lArrive:
+		if w.plug.active && w.aborted == "" {
+			// one slot for the client's own socket; the table is full again once it is connected
+			if err := w.plug.releaseOne(); err != nil {
+				w.aborted = "descriptor table: " + err.Error()
+			}
+		}
 		r := &realSess{id: l.i, tr: trTcp, w: w}
 		// the connection is registered under the client's address while the lock is held, so that the accept loop's
 		// Do (which looks it up under the same lock) cannot run ahead of the registration
@@ -395,6 +482,9 @@ func (w *world) issue(l *label, natural bool) error {
 		if err != nil {
 			w.mu.Unlock()
 			return err
+		}
+		if w.plug.active && w.aborted == "" && !tableFull() {
+			w.aborted = "descriptor table not full after the client connected"
 		}
 		r.addr = c.LocalAddr().String()
 		w.sess = append(w.sess, r)
@@ -432,6 +522,8 @@ func (w *world) issue(l *label, natural bool) error {
 		r.sess.Load().Close()
 	case aStartAgain:
 		r.sess.Load().Start()
+	case aSetHandler:
+		r.sess.Load().UpdateHandler(w.handler(l.h))
 	case aPeerClose:
 		_ = r.peer.Close()
 	case aPeerRead:
@@ -476,7 +568,7 @@ func (w *world) issue(l *label, natural bool) error {
 // observe reads what the property names; ready=false while something is still on its way (an accepted connection not
 // yet handed over or refused, a session whose pointer the handler has not seen, the bytes in front of a FIN).
 func (w *world) observe(c census) (obsAll, bool) {
-	o := obsAll{Cnt: int64(w.mgr.ConnCount())}
+	o := obsAll{Cnt: int64(w.mgr.ConnCount()), Loop: !w.server || c.acceptors > 0}
 	ready := c.unknown == 0
 	w.mu.Lock()
 	sess := append([]*realSess{}, w.sess...)
@@ -486,6 +578,7 @@ func (w *world) observe(c census) (obsAll, bool) {
 		x.Started = r.started.Load()
 		x.OnExit = int(r.onExit.Load())
 		x.Rcvd = int(r.rcvd.Load())
+		x.ExitH = int(r.exitH.Load())
 		r.mu.Lock()
 		x.Inbox = append([]byte{}, r.inbox...)
 		saw := r.peerSawClose
@@ -507,8 +600,8 @@ func (w *world) observe(c census) (obsAll, bool) {
 		} else {
 			// not handed to the manager: closed on accept iff the client saw the end of the stream
 			x.Closed = saw
-			if !saw {
-				ready = false
+			if !saw && o.Loop {
+				ready = false // neither handed over nor refused yet, and somebody still accepts
 			}
 		}
 		o.Sess = append(o.Sess, x)
